@@ -343,8 +343,8 @@ static Spec small_spec(Rng &r) {
 static void resize_data(RawHDU &h, size_t bytes) { h.data.resize(bytes, 0); }
 static Mut mutate(Rng &r, const Spec &s) {
 	Mut m; std::vector<RawHDU> hd = raw_from_spec(s); int nd = s.ndim();
-	int kind = (int)r.below(27);
-	if (kind >= 24) {
+	int kind = (int)r.below(28);
+	if (kind >= 24 && kind <= 26) {
 		// a self-consistent file (NAXISn, ORDERn and the KNOTSn length all agree) whose knot count sits at or just below the admissible minimum 2*order+2
 		Spec t = s; int d = (int)r.below(nd); unsigned o = 1 + (unsigned)r.below(5); t.order[d] = o;
 		int nk = kind == 24 ? 2 * (int)o + 1 : kind == 25 ? (int)o + 2 + (int)r.below(o) : 2 * (int)o + 2;
@@ -378,10 +378,16 @@ static Mut mutate(Rng &r, const Spec &s) {
 		else { std::vector<unsigned char> t; for (size_t i = 0; i < n; i++) { double v = 1.5; put_be(t, &v, 8); } hd[d].data = t; m.name = "knot-data-constant"; m.expect_valid = true; }
 		break; }
 	case 15: { if (s.has_extents) { RawHDU &e = hd.back(); long w = r.coin(0.5) ? 2 * nd + 1 : std::max(1, 2 * nd - 1); set_card(e, "NAXIS1", card_int("NAXIS1", w)); e.data.resize((size_t)w * 8, 0); m.name = "EXTENTS-wrong-length"; m.expect_valid = true; } else { m.name = "valid"; m.expect_valid = true; } break; }
+	case 27: { // group / heap parameters in an image HDU: PCOUNT and GCOUNT change where cfitsio looks for the pixels and how large it takes the data unit to be
+		size_t d = r.below(hd.size()); long pv[] = {1, 7, 360, 2147483647L, 99999999999L, -1}; long gv[] = {0, 2, 1000000L, -1};
+		if (r.coin(0.6)) { long v = pv[r.below(6)]; if (d == 0) hd[0].cards.push_back(card_int("PCOUNT", v)); else set_card(hd[d], "PCOUNT", card_int("PCOUNT", v)); }
+		else { long v = gv[r.below(4)]; if (d == 0) hd[0].cards.push_back(card_int("GCOUNT", v)); else set_card(hd[d], "GCOUNT", card_int("GCOUNT", v)); }
+		if (d == 0 && r.coin(0.5)) hd[0].cards.push_back(card_log("GROUPS", true));
+		m.name = "PCOUNT/GCOUNT-value"; break; }
 	default: break;
 	}
 	m.bytes = raw_encode(hd);
-	if (kind >= 16) {
+	if (kind >= 16 && kind <= 23) {
 		std::vector<unsigned char> &b = m.bytes;
 		switch (kind) {
 		case 16: { size_t hdr = 2880; int n = 1 + (int)r.below(3); for (int i = 0; i < n; i++) { size_t pos = r.below(std::min(b.size(), hdr)); b[pos] ^= (unsigned char)(1u << r.below(8)); } m.name = "bit-flip-in-primary-header"; break; }
@@ -524,6 +530,13 @@ int main(int argc, char **argv) {
 		if (a.prop == "C06") run_C06(a, cs);
 		else if (a.prop == "C06golden") { prop_id() = "C06"; run_C06golden(a, cs); }
 		else if (a.prop == "C07") run_C07(a, cs);
+		else if (a.prop == "C07corpus") { // seed corpus for the coverage-guided pass: valid small tables (both independent writers) and one mutant of each
+			Rng r(a.seed, "C07corpus", cs); Spec s = small_spec(r); std::string b = g_tmp + "/seed_" + std::to_string(cs);
+			{ std::vector<unsigned char> raw = raw_encode(raw_from_spec(s)); write_file(b + "_raw.fits", raw.data(), raw.size()); }
+			{ Bytes m = mkfits(s); write_file(b + "_cfitsio.fits", m.p, m.n); free(m.p); }
+			{ Mut m = mutate(r, s); if (m.bytes.size() <= 60000) write_file(b + "_mut.fits", m.bytes.data(), m.bytes.size()); }
+			count("corpus-files", 3);
+		}
 		else { fprintf(stderr, "unknown mode %s\n", a.prop.c_str()); return 2; }
 	}
 	finish();
